@@ -259,6 +259,49 @@ class Ctx:
         self.traces += n
         return dict(classes=classes, mismatches=mism, consumed=consumed)
 
+    def validate_events(self, trace_path, module, boundary='{"base":', shards=None, timeout=1800):
+        """Validate a concatenated event trace (histories separated by reset events, which start with
+        `boundary`) in parallel shards cut at history boundaries. Returns mismatches as
+        dict(id, line (1-based in the whole file), ev, expected) and the shard line ranges."""
+        with open(trace_path) as f:
+            lines = f.readlines()
+        n = len(lines)
+        if n == 0:
+            return []
+        shards = shards or min(NCPU, max(1, n // 20000))
+        per = n // shards
+        cuts = [0]
+        for i in range(1, shards):
+            j = max(i * per, cuts[-1])
+            while j < n and not lines[j].startswith(boundary):
+                j += 1
+            if j > cuts[-1] and j < n:
+                cuts.append(j)
+        cuts.append(n)
+        jobs = []
+        base = os.path.basename(trace_path)
+        for i in range(len(cuts) - 1):
+            sp = os.path.join(self.work, "%s.shard%d" % (base, i))
+            with open(sp, "w") as o:
+                o.writelines(lines[cuts[i]:cuts[i + 1]])
+            jobs.append((module, module + ".cfg", {"TRACE": sp}, "val_%s_%d.out" % (base, i)))
+        results = self.tlc_parallel(jobs, timeout=timeout)
+        mism = []
+        consumed = 0
+        for i, r in enumerate(results):
+            with open(r["out"], errors="replace") as f:
+                for line in f:
+                    if line.startswith('<<"MISMATCH"'):
+                        m = re.match(r'<<"MISMATCH", (.+?), (\d+), "(\w+)", "(.*)">>$', line.strip())
+                        mism.append(dict(id=json.loads(m[1]), line=cuts[i] + int(m[2]), ev=m[3], expected=unescape_tla_string(m[4])))
+                    elif line.startswith('<<"CONSUMED"'):
+                        consumed += int(re.match(r'<<"CONSUMED", (\d+)>>', line)[1])
+        if consumed != n:
+            raise InfraError("trace validation consumed %d of %d events of %s" % (consumed, n, trace_path))
+        self.traces += sum(1 for l in lines if l.startswith(boundary))
+        self.last_trace_lines = lines
+        return mism
+
     # ------------------------------------------------------------------ verdicts
     def write_replay(self, name, obj):
         d = os.path.join(self.work, "replay")
